@@ -47,7 +47,9 @@ impl<K> IndexState<K> {
         }
 
         let unique_blobs = unique.len() as u64;
-        let total_bytes = unique.values().copied().sum::<u64>();
+        // sizes come straight from the (unchecksummed) index file: a damaged one must not make
+        // loading overflow
+        let total_bytes = unique.values().copied().fold(0u64, u64::saturating_add);
 
         self.stats.cas.unique_blobs = unique_blobs;
         self.stats.cas.total_bytes = total_bytes;
